@@ -2,10 +2,14 @@
 unitcell.filter_pairs saw and returned, judge kept-pair lists and orient() results against the
 records emitted by specs/Orient.tla.
 
-Conventions (see Orient.tla): G = integer reciprocal metric, gi = G*SCALE, hkl are columns, g = U.B.h
+Conventions (see Orient.tla): G = integer reciprocal metric, gi = G / D^2 with the cell's own D = 1000 tn/td
+(d* = sqrt(Q)/D; makerings' default tolerance 0.001 is tn/td in units of sqrt(Q)), hkl are columns, g = U.B.h
 with B the upper triangular Cholesky factor (B^T.B = gi; the Busing-Levy B), ring numbers are 1-based
 in the specification and 0-based in the code, pair positions x are 0-based (as in the code) inside the
-"order" list and kept positions k are 1-based indices into the kept list.
+"order" list and kept positions k are 1-based indices into the kept list.  A ring is makerings' ring: a run of Q
+values (one value for the small forms; several for the pseudo-symmetric forms, whose rings merge families of unequal
+d*), so the cosine of a pair is N / sqrt(D) with N = ha.G.hb and D = Q(ha) Q(hb) its own; the angle class of a pair
+("nk") is the rank of its exact cosine among the distinct cosines of the ring pair.
 
 Scale family (Orient.tla, SCALE): the instance (cell, k) is the k = 0 cell with every edge multiplied by 2^k.
 It is built from the k = 0 quantities by exact scaling (edges * 2^k, B * 2^-k, B^-1 * 2^k, gi * 4^-k, d* limit
@@ -17,7 +21,8 @@ from __future__ import print_function
 import math, json
 import numpy as np
 
-SCALE = 0.01           # gi = G * SCALE : d* = 0.1 sqrt(Q); neighbouring integer Q are >= 0.005 apart up to Q = 100
+SCALE = 0.01           # gi = G * SCALE for tn/td = 1/100 : d* = 0.1 sqrt(Q); neighbouring integer Q are >= 0.005 apart up to Q = 100
+MIN_GAP = 1e-6         # distinct exact cosines of a ring pair must differ by more than this (the code clusters at 1e-8)
 CR_NARROW = 0.002      # indexer default cosine_tol
 CR_WIDE = 0.71         # takes in neighbouring angle blocks (exercises ubi_equiv across blocks)
 CRS = {2: CR_NARROW, 710: CR_WIDE}
@@ -69,7 +74,7 @@ def ubi_from_pair(B, BI, ha, hb, g1, g2):
 class RealCell(object):
     """the real ImageD11 unitcell of a specification cell record + what the model says about it"""
 
-    def __init__(self, ucmod, crec, nr, k=0):
+    def __init__(self, ucmod, crec, k=0):
         self.ucmod = ucmod
         self.rec = crec
         self.id = crec["cell"]
@@ -77,20 +82,25 @@ class RealCell(object):
         self.s = 2.0 ** self.k                  # edges are multiplied by s (exact in binary64)
         self.name = self.id if self.k == 0 else "%s*2^%d" % (self.id, self.k)
         self.G = np.array(crec["G"], int)
-        self.nr = nr
-        self.qs = crec["qs"]
+        nr = self.nr = len(crec["rings"])       # the rings of the specification's ring table (NRC)
+        self.qs = crec["qs"]                    # Q of the first member of each ring (ringds = sqrt(q0) / D)
+        self.qsets = crec["qsets"]              # the Q values a ring merges
+        self.D = 1000.0 * crec["tn"] / crec["td"]
+        self.scale = 1.0 / (self.D * self.D)    # gi = G * scale at k = 0
         self.rings = [[tuple(h) for h in ring] for ring in crec["rings"]]
+        self.cut = [tuple(p) for p in crec.get("cut", [])]      # ring pairs holding the angle classes next to the 0.98 cut
         self.aut = set(tuple(tuple(r) for r in m) for m in crec["aut"])
         self.autarr = np.array(sorted(self.aut), int)                  # (n,3,3)
         s = self.s
-        lp0 = lattice_parameters(crec["G"])
+        lp0 = lattice_parameters(crec["G"], self.scale)
         self.lp = [lp0[0] * s, lp0[1] * s, lp0[2] * s, lp0[3], lp0[4], lp0[5]]
-        B0 = chol_B(crec["G"])
+        B0 = chol_B(crec["G"], self.scale)
         self.B = B0 / s
         self.BI = np.linalg.inv(B0) * s
-        self.gi = np.array(crec["G"], float) * SCALE / (s * s)
-        self.g = np.linalg.inv(np.array(crec["G"], float) * SCALE) * (s * s)
-        self.limit = math.sqrt((self.qs[nr - 1] + 0.5) * SCALE) / s
+        self.gi = np.array(crec["G"], float) * self.scale / (s * s)
+        self.g = np.linalg.inv(np.array(crec["G"], float) * self.scale) * (s * s)
+        # every member of the last ring lies below the limit (rings beyond it may appear: they are not used)
+        self.limit = math.sqrt((max(self.qsets[nr - 1]) + 0.5) * self.scale) / s
         self.tol = 0.001 / s                    # makerings' default tolerance, in the units of this cell's d*
         self.cell = ucmod.unitcell(self.lp, crec["cen"])
         if self.k == 0:
@@ -102,15 +112,15 @@ class RealCell(object):
         """compare the real ring table with the model's rings (C03 territory: reported, not judged here)"""
         c = self.cell
         probs = []
-        if len(c.ringds) != self.nr:
+        if len(c.ringds) < self.nr:
             probs.append("%d rings, model %d" % (len(c.ringds), self.nr))
         for r in range(min(self.nr, len(c.ringds))):
             real = set(tuple(int(v) for v in h) for h in c.ringhkls[c.ringds[r]])
             if real != set(self.rings[r]):
                 probs.append("ring %d: real - model = %s, model - real = %s" % (
                     r, sorted(real - set(self.rings[r]))[:4], sorted(set(self.rings[r]) - real)[:4]))
-            if abs(c.ringds[r] - math.sqrt(self.qs[r] * SCALE) / self.s) > 1e-9 / self.s:
-                probs.append("ring %d: d* %r, model %r" % (r, c.ringds[r], math.sqrt(self.qs[r] * SCALE) / self.s))
+            if abs(c.ringds[r] - math.sqrt(self.qs[r] * self.scale) / self.s) > 1e-9 / self.s:
+                probs.append("ring %d: d* %r, model %r" % (r, c.ringds[r], math.sqrt(self.qs[r] * self.scale) / self.s))
         return probs
 
     def canon(self, pairs):
@@ -214,33 +224,69 @@ def as_pairs(lst):
     return [(tuple(p[0]), tuple(p[1])) for p in lst]
 
 
-def judge_kept_direct(rc, real, q1, q2):
-    """the property on the real kept list, without the block machine: blocks = equal exact N;
-    returns list of problems.  Used when the real list matches neither variant of the model."""
+def pair_keys(rc, pairs):
+    """exact description of the cosine of every (ha, hb): N = ha.G.hb, D = Q(ha) Q(hb) (cos = N / sqrt(D)) and a
+    hashable key that is equal iff the cosines are equal: (sign, N^2 / D in lowest terms)"""
+    P = np.asarray(pairs, int).reshape(-1, 2, 3)
     G = rc.G
+    N = np.einsum("ni,ij,nj->n", P[:, 0], G, P[:, 1])
+    D = np.einsum("ni,ij,nj->n", P[:, 0], G, P[:, 0]) * np.einsum("ni,ij,nj->n", P[:, 1], G, P[:, 1])
+    keys = []
+    for n, d in zip(N.tolist(), D.tolist()):
+        g = math.gcd(n * n, d)
+        keys.append((0 if n == 0 else (1 if n > 0 else -1), n * n // g, d // g) if n else (0, 0, 1))
+    return N, D, keys
+
+
+def key_cos(key):
+    return key[0] * math.sqrt(key[1] / float(key[2]))
+
+
+def is_small(n, d):
+    """abs(cos) < 0.98, exact"""
+    return 2500 * int(n) * int(n) < 2401 * int(d)
+
+
+def class_ranks(keys):
+    """angle class of every pair = 1-based rank of its exact cosine among the distinct cosines; also returns the
+    smallest difference of two distinct cosines (MIN_GAP: blocks of equal exact cosine must be the code's blocks)"""
+    distinct = sorted(set(keys), key=key_cos)
+    vals = [key_cos(k) for k in distinct]
+    gap = min([b - a for a, b in zip(vals, vals[1:])] or [2.0])
+    rank = dict((k, i + 1) for i, k in enumerate(distinct))
+    return [rank[k] for k in keys], gap
+
+
+def judge_kept_direct(rc, real):
+    """the property on the real kept list, without the block machine: blocks = equal exact cosine;
+    returns list of problems.  Used when the real list matches neither variant of the model."""
     probs = []
     allp = [(a, b) for a in real["h1"] for b in real["h2"]]
-    nkey = lambda p: int(np.dot(p[0], np.dot(G, p[1])))
-    small = lambda n: 2500 * n * n < 2401 * q1 * q2
+    N, D, keys = pair_keys(rc, allp)
     kept = real["kept"]
-    for p in allp:
-        if small(nkey(p)) and not any(nkey(k) == nkey(p) and rc.equiv(k, p) for k in kept):
+    if kept:
+        kN, kD, kkeys = pair_keys(rc, kept)
+    else:
+        kN, kD, kkeys = [], [], []
+    for p, n, d, key in zip(allp, N, D, keys):
+        if is_small(n, d) and not any(kk == key and rc.equiv(k, p) for k, kk in zip(kept, kkeys)):
             probs.append("pair %s (|cos| < 0.98) is not equivalent to any kept pair" % (p,))
             break
     for i in range(len(kept)):
         for j in range(i):
-            if nkey(kept[i]) == nkey(kept[j]) and rc.equiv(kept[i], kept[j]):
+            if kkeys[i] == kkeys[j] and rc.equiv(kept[i], kept[j]):
                 probs.append("kept pairs %s and %s are equivalent" % (kept[i], kept[j]))
-    ns = [nkey(k) for k in kept]
-    if any(ns[i] > ns[i + 1] for i in range(len(ns) - 1)):
+    cs = [key_cos(k) for k in kkeys]
+    if any(cs[i] > cs[i + 1] + 1e-12 for i in range(len(cs) - 1)):
         probs.append("kept list not in increasing cosine order")
     return probs
 
 
-def exact_keys(rc, order):
-    """N = ha.G.hb of every pair of `order` (exact integers)"""
-    P = np.asarray(order, int).reshape(-1, 2, 3)
-    return np.einsum("ni,ij,nj->n", P[:, 0], rc.G, P[:, 1])
+def exact_cos_table(rc, h1, h2):
+    """cosines of ring1 x ring2 from the exact N and D (binary64 of the exact value)"""
+    allp = [(a, b) for a in h1 for b in h2]
+    N, D, _ = pair_keys(rc, allp)
+    return (N / np.sqrt(D.astype(float))).reshape(len(h1), len(h2))
 
 
 def class_counts(rc, order, nk):
@@ -254,14 +300,16 @@ def class_counts(rc, order, nk):
 
 def direct_rec(rc, r1, r2, real):
     """the kept-list record the property judgement needs, made without the block machine: every pair of the
-    model's ring1 x ring2 with its exact N; used when the recorded order is not one the specification accepts"""
+    model's ring1 x ring2 with its angle class; used when the recorded order is not one the specification accepts"""
     order = [[list(a), list(b)] for a in rc.rings[r1 - 1] for b in rc.rings[r2 - 1]]
-    nk = [int(v) for v in exact_keys(rc, order)]
-    q1, q2 = rc.qs[r1 - 1], rc.qs[r2 - 1]
     kept = real.get("kept", [])
-    return {"n": len(order), "nk": nk, "small": [1 if 2500 * n * n < 2401 * q1 * q2 else 0 for n in nk],
+    N, D, keys = pair_keys(rc, order + [[list(a), list(b)] for a, b in kept])
+    ranks, _ = class_ranks(keys)
+    n = len(order)
+    return {"n": n, "nk": ranks[:n], "nn": [int(v) for v in N[:n]], "dd": [int(v) for v in D[:n]],
+            "small": [1 if is_small(a, d) else 0 for a, d in zip(N[:n], D[:n])],
             "keptpairs": [[list(a), list(b)] for a, b in kept],
-            "keptn": [int(v) for v in exact_keys(rc, kept)] if kept else [], "_direct": True, "_order": order}
+            "keptn": ranks[n:], "_direct": True, "_order": order}
 
 
 def diagnose_order(rc, r1, r2, real):
@@ -273,9 +321,7 @@ def diagnose_order(rc, r1, r2, real):
             why.append("the %s hkl list handed to filter_pairs is not ring %d (%d hkls, the ring has %d)"
                        % (nm, (r1 if nm == "first" else r2) - 1, len(h), len(ring)))
     if not why:
-        q1, q2 = rc.qs[r1 - 1], rc.qs[r2 - 1]
-        s12 = math.sqrt(q1 * q2)
-        exact = np.array([[float(np.dot(a, np.dot(rc.G, b))) / s12 for b in real["h2"]] for a in real["h1"]])
+        exact = exact_cos_table(rc, real["h1"], real["h2"])
         c2a = np.asarray(real["c2a"], float)
         if c2a.shape != exact.shape:
             why.append("the cosine table handed to filter_pairs has shape %s for %d x %d hkls" % (c2a.shape,) + exact.shape)
@@ -358,6 +404,26 @@ class OrientStats(object):
         self.multi = 0
         self.crossblock = 0
         self.dedup = 0
+
+
+def same_lengths_only(rc, kept_rec, x, mode):
+    """every hkl pair of the ring pair that a lookup for pair x may return (mode 0: the pairs of x's angle class;
+    crange: the pairs with |cos| < 0.98 within crange of x's cosine) belongs to x's angle class and has x's lengths
+    Q(ha), Q(hb); decided on the exact N, Q of the pairs, not on any kept list"""
+    cache = kept_rec.setdefault("_samelen", {})
+    key = (kept_rec["nk"][x], mode)
+    if key not in cache:
+        if "_arr" not in kept_rec:
+            nn = np.asarray(kept_rec["nn"], float)
+            dd = np.asarray(kept_rec["dd"], float)
+            P = np.asarray(kept_rec["_order"], int).reshape(-1, 2, 3)
+            qa = np.einsum("ni,ij,nj->n", P[:, 0], rc.G, P[:, 0])
+            qb = np.einsum("ni,ij,nj->n", P[:, 1], rc.G, P[:, 1])
+            kept_rec["_arr"] = (nn / np.sqrt(dd), qa, qb, np.asarray(kept_rec["nk"]), np.asarray(kept_rec["small"], bool))
+        cosv, qa, qb, nk, small = kept_rec["_arr"]
+        sel = (nk == nk[x]) if mode == 0 else (small & (np.abs(cosv - cosv[x]) < CRS[mode] + 1e-9))
+        cache[key] = bool(np.all(nk[sel] == nk[x]) and np.all(qa[sel] == qa[x]) and np.all(qb[sel] == qb[x]))
+    return cache[key]
 
 
 def judge_orient(rc, r1, r2, kept_rec, lookups, U, x, mode, stats, perturb=None, conform=True, store=None, law=None):
@@ -458,8 +524,11 @@ def judge_orient(rc, r1, r2, kept_rec, lookups, U, x, mode, stats, perturb=None,
             gscale = float(np.abs(rc.g).max())
             if np.abs(np.matmul(A, A.transpose(0, 2, 1)) - rc.g).max() > REL * gscale + 1e-12:
                 probs.append(("property", "UBI.UBI^T is not the cell's metric tensor"))
-            # (a') candidates made from a pair of the observed angle give integer hkl to both reflections
-            if mode in (0, 2):
+            # (a') a candidate made from a pair of the observed angle AND the observed lengths gives integer hkl to both
+            # reflections: required when every hkl pair the lookup can return (nearest: the observed angle class; crange:
+            # every class within crange of it) has the observed cosine and the observed |g1| |g2| - in a merged ring
+            # a pair of another family subtends the same angle with other lengths and need not index g1, g2
+            if mode in (0, 2) and same_lengths_only(rc, kept_rec, x, mode):
                 hc = np.concatenate([np.matmul(A, g1), np.matmul(A, g2)])
                 if np.abs(hc - np.round(hc)).max() > TOL_INT:
                     probs.append(("property", "a candidate does not give integer hkl to the two reflections it was made from"))
